@@ -707,7 +707,34 @@ func famPattern(o *Out, r R, tier string) {
 	if tier == "thorough" {
 		n = 40000
 	}
+	// an error keeps naming ITS string: every rejection's error value is retained and re-read after the next rejections
+	// (a shared or recycled error object would by then name another pattern)
+	type kept struct {
+		raw string
+		err error
+	}
+	var retained []kept
+	recheck := func() {
+		for _, k := range retained {
+			pe, isT := k.err.(*cfgerrors.UnacceptableOriginPatternError)
+			if !isT || pe == nil || pe.Value != k.raw {
+				got := "<other type>"
+				if isT && pe != nil {
+					got = pe.Value
+				}
+				o.emitDirect("pattern-error-retained", false, "the error returned for "+strconv.Quote(truncate(k.raw))+" later names "+strconv.Quote(truncate(got)))
+			}
+		}
+		retained = retained[:0]
+	}
+	defer recheck()
 	emit := func(label, kind, raw string) {
+		if _, perr := origins.ParsePattern(raw); perr != nil {
+			retained = append(retained, kept{raw, perr})
+			if len(retained) >= 8 {
+				recheck()
+			}
+		}
 		impl, ok := patternImpl(raw)
 		wildfree := ok && !strings.Contains(raw, "*")
 		sm := false
